@@ -716,9 +716,15 @@ def rule_exact_finish(ctx, rule='R09.11'):
                     continue
                 n += 1
                 eft = kw.get('exact_finish_time', 0)
+                if integ in subs and eft == 0 and (subs[integ] + '.keep_unsynchronized') not in snap:
+                    bad.setdefault((ln, integ), []).append('mode=%s: %s.keep_unsynchronized is never assigned - the caller\'s keep_unsynchronized argument does not reach the integrator in use' % (env['mode'], subs[integ]))
                 if eft == 0 or integ not in subs:
                     continue
-                keep = snap.get(subs[integ] + '.keep_unsynchronized', pyeval.UNK)
+                kkey = subs[integ] + '.keep_unsynchronized'
+                if kkey not in snap:
+                    bad.setdefault((ln, integ), []).append('mode=%s: %s is never assigned before integrate() - the switch of the integrator in use keeps whatever the snapshot stored' % (env['mode'], kkey))
+                    continue
+                keep = snap.get(kkey, pyeval.UNK)
                 if keep is pyeval.UNK:
                     raise AnalysisError('%s: the value getSimulation stores in %s.keep_unsynchronized (mode=%s) is not a constant the evaluator can follow' % (rule, subs[integ], env['mode']))
                 if keep != 0:
